@@ -111,3 +111,21 @@ func svBuildStakeWithdraw(e *svEnv) (action.RawTx, []int) {
 	msg := &staking.Withdraw{ValidatorAddress: valAddr, StakeAddress: stakeAddr, Stake: svAnyAmount("amount")}
 	return svRaw(action.WITHDRAW, msg), []int{si, vi}
 }
+
+func svStakeValidator(raw action.RawTx) []byte {
+	m := &staking.Stake{}
+	m.Unmarshal(raw.Data)
+	return m.ValidatorAddress
+}
+
+func svUnstakeValidator(raw action.RawTx) []byte {
+	m := &staking.Unstake{}
+	m.Unmarshal(raw.Data)
+	return m.ValidatorAddress
+}
+
+func svWithdrawValidator(raw action.RawTx) []byte {
+	m := &staking.Withdraw{}
+	m.Unmarshal(raw.Data)
+	return m.ValidatorAddress
+}
